@@ -507,8 +507,8 @@ def check_node(ent):
         if out is None: return 'contains raised %s' % ent[5]
         if exp and not out and nd and not seg_contains(ins[0], nd):
             return 'F17: %r in text is False although the characters occur (across a part boundary)' % S(nd)
-        if exp and not out and not nd:
-            return 'F17e: the empty string is not found in %r' % (x,)
+        if exp and not out and not nd and ins[0][0][0] == 1:
+            return 'F17e: the empty string is not found in a Symbol'  
         return 'contains: %r in %r is %r' % (S(nd), x, bool(out))
     if op in (32, 33):
         nds = [list(n) for n in params[0]]; cs = chars_of(x)
@@ -524,7 +524,8 @@ def check_node(ent):
                 return 'startswith/endswith: %r on %r is False although one part has it' % ([S(n) for n in nds], x)
             if any(n and hit(n, cs) for n in nds):
                 return 'F17: startswith/endswith(%r) is False although the characters are there (across a part boundary)' % ([S(n) for n in nds],)
-            return 'F17e: startswith/endswith of the empty string is False on %r' % (x,)
+            if lf is None or lf[0] == 1:
+                return 'F17e: startswith/endswith of the empty string is False on %r (no part, or a Symbol)' % (x,)
         return 'startswith/endswith: %r on %r is %r' % ([S(n) for n in nds], x, bool(out))
     if op == 34:
         if out is None: return 'isalpha raised %s' % ent[5]
@@ -774,11 +775,11 @@ def gen(tier, rng):
         bin_a = two + trees(3)[::9]
         join_c = two[::12]
     else:
-        ctor = trees_upto(5)
+        ctor = trees_upto(4) + trees(5)[::6]
         slc = three
-        mid = trees_upto(4)
-        bin_a = three
-        join_c = two
+        mid = three + trees(4)[::20]
+        bin_a = two + trees(3)[::3]
+        join_c = two[::6]
     for t in ctor:
         yield ('exhaustive_ctor', 1, [t])
     for t in slc:
@@ -807,7 +808,7 @@ def gen(tier, rng):
         yield ('exhaustive_observe', 5, [t, [norm('.'), norm('?'), norm('!')]])
         yield ('exhaustive_observe', 4, [t, []])
     # split where separators sit at part boundaries: leaves {"a", " ", "b c", "-"}, nodes {Text, Tag em, Protected}
-    for t in split_trees(4 if quick else 5):
+    for t in split_trees(4):
         for sep in ([0], [1, norm(' ')], [1, norm('  ')], [1, norm('a')], [2]):
             for keep in KEEPS:
                 yield ('exhaustive_split_boundary', 2, [t, sep, keep])
@@ -835,7 +836,7 @@ def gen(tier, rng):
         yield ('regroup', 7, [T(E('a'), t), T(E('a'), T(t))])
         yield ('regroup', 7, [T(t), T(TAG('b', t))])
     # (b) structured random: deeper trees, operation sequences of length <= 6
-    nrand = 6000 if quick else 120000
+    nrand = 6000 if quick else 50000
     for i in range(nrand):
         e = rand_tree(rng, rng.choice([1, 2, 2, 3, 4]), STRS)
         s = plain(e).replace('\x00', '')
@@ -896,8 +897,8 @@ RULE = ('pinned: the inputs of the defects F8 F9 F10 F17 F23 and every disagreem
         'of one another; malformed: non-text parts, bad separators, out-of-range piece indices, the deprecated tag name. '
         'distinct = distinct (function, argument); non-trivial = the value has markup or several parts / the list has several '
         'pieces / the observation is True.')
-EXHAUSTIVE = {'quick': 'all construction expressions of <= 4 nodes (6 node kinds, 4 leaves); slices/indices/methods/observers on all of <= 3 nodes; binary operations on pairs of <= 2 nodes (plus a stride of the 3-node ones)',
-              'thorough': 'all construction expressions of <= 5 nodes; slices/indices on all of <= 3 nodes; methods/observers/split on all of <= 4 nodes; binary operations on (<= 3 nodes) x (<= 2 nodes)'}
+EXHAUSTIVE = {'quick': 'all construction expressions of <= 3 nodes (6 node kinds, 4 leaves) and every 3rd of the 4-node ones; every slice (i, j) and index in [-(n+2), n+2] + None on all expressions of <= 2 nodes (and every 5th 3-node one); all unary methods, split (7 separators x 3 keep values), observers with every substring <= 3 on all of <= 2 nodes (every 2nd 3-node one); +, append, == on all pairs of <= 2 nodes; split at part boundaries on all expressions of <= 4 nodes over {a, space, "b c", -} x {Text, Tag, Protected}',
+              'thorough': 'all construction expressions of <= 4 nodes and every 6th of the 5-node ones; every slice/index on all of <= 3 nodes; methods/split/observers on all of <= 3 nodes (every 20th 4-node one); +, append, == on (<= 2 nodes and every 3rd 3-node one) x (<= 2 nodes)'}
 TRUSTED_BASE = ['modelled (not verified) code: pybtex/richtext.py (all classes and methods named in Model/RichText.v); '
                 'str.upper/lower/isalpha are modelled on ASCII only, \\s as the 29 Python whitespace code points; '
                 'the regexes whitespace_re and delimiter_re are modelled by hand-written splitters (compared with the live objects through String.split on every run)']
